@@ -226,7 +226,7 @@ class Body:
         self.reach_ps(start, _collect=True)
         return list(self._ret_tags)
 
-    def reach_ps(self, start, avoid_blocks=(), _collect=False):
+    def reach_ps(self, start, avoid_blocks=(), _collect=False, avoid_edges=()):
         """Blocks reachable from `start` over normal edges with a little path sensitivity: the variant (Ok/Err, Continue/Break) of
         Result / ControlFlow values built on the path is tracked through moves, `Try::branch` and `discriminant`, and a switch on a known
         variant follows only the matching arm.  (Needed once a Result-returning helper is inlined: its `return Err(..)` and `Ok(())`
@@ -292,6 +292,8 @@ class Body:
                     succs = hit if hit else [t["otherwise"]]
             nst = tuple(sorted(tags.items(), key=lambda kv: kv[0]))
             for s2 in succs:
+                if avoid_edges and (bi, s2) in avoid_edges:
+                    continue
                 if s2 in self._normal_blocks():
                     todo.append((s2, nst))
         return out
